@@ -67,10 +67,15 @@ def step (w : W) (ws : List String) : W × String :=
   | ["detect"] => detectOut w
   | ["detect!"] =>
     let s := Aggkit.ReorgSync.step w.s .detectCrash
-    ({ w with s := s }, s!"crashed {subStr w.names "A" s.a} {subStr w.names "B" s.b}")
-  | ["restart"] => (w, s!"up {subStr w.names "A" w.s.a} {subStr w.names "B" w.s.b}")
+    ({ w with s := s }, s!"crashed {subStr w.names "A" s.a} {subStr w.names "B" s.b} dbA={lst w.names s.a.db} dbB={lst w.names s.b.db}")
+  -- a restart rebuilds the in-memory tracked lists from table `tracked_block`; the rows are shown as well
+  | ["restart"] =>
+    let s := Aggkit.ReorgSync.step w.s .restart
+    ({ w with s := s }, s!"up {subStr w.names "A" s.a} {subStr w.names "B" s.b} dbA={lst w.names s.a.db} dbB={lst w.names s.b.db}")
   -- restart with the first read(s) of the last-processed marker failing: the driver retries the read (Sync's loop)
-  | ["restart!"] => (w, s!"up {subStr w.names "A" w.s.a} {subStr w.names "B" w.s.b}")
+  | ["restart!"] =>
+    let s := Aggkit.ReorgSync.step w.s .restart
+    ({ w with s := s }, s!"up {subStr w.names "A" s.a} {subStr w.names "B" s.b} dbA={lst w.names s.a.db} dbB={lst w.names s.b.db}")
   | ["end"] =>
     let round (s : Sys) : Sys :=
       let s := Aggkit.ReorgSync.step s .detect
